@@ -364,6 +364,107 @@ def _o_xkey(w):
     return ok, f"{s[:8]}.."
 
 
+def _reads_back_on(addr: str, net: str):
+    """(ok, note): the address decodes, and as a network sharing the prefix of `net` (same type)."""
+    try:
+        if b32.is_segwit_prefixed(addr):
+            _, _, n2 = b32.witness_from_address(addr)
+            same = NETWORKS[n2].hrp == NETWORKS[net].hrp
+        else:
+            kind, _, n2 = b58.h160_from_address(addr)
+            same = getattr(NETWORKS[n2], kind) == getattr(NETWORKS[net], kind)
+    except Exception as e:  # noqa: BLE001
+        return False, f"{addr!r} does not read back: {type(e).__name__}: {e}"
+    ok = same and NETWORKS[n2].network_type == NETWORKS[net].network_type
+    return ok, f"{addr} reads back as {n2}"
+
+
+def _build_spk(kind: str, net: str, qs):
+    from btclib.curves import mult
+    pts = [mult(q) for q in qs]
+    h = bytes.fromhex("%040x" % (qs[0] % (1 << 160)))
+    if kind == "p2pk":
+        return ScriptPubKey.p2pk(pts[0], net)
+    if kind == "p2ms":
+        return ScriptPubKey.p2ms(max(1, len(pts) - 1), pts, net)
+    if kind == "p2ms-uncompressed":
+        return ScriptPubKey.p2ms(1, pts, net, compressed=False, lexicographic_sorting=False)
+    if kind == "p2pkh":
+        return ScriptPubKey.p2pkh(pts[0], net)
+    if kind == "p2sh":
+        return ScriptPubKey.p2sh(b"\x51", net)
+    if kind == "p2wpkh":
+        return ScriptPubKey.p2wpkh(pts[0], net)
+    if kind == "p2wsh":
+        return ScriptPubKey.p2wsh(b"\x51", net)
+    if kind == "p2tr":
+        return ScriptPubKey.p2tr(pts[0], network=net)
+    if kind == "nulldata":
+        return ScriptPubKey.nulldata(h, net)
+    if kind == "witness_unknown":
+        return ScriptPubKey(bytes([0x50 + 2 + qs[0] % 15, 20]) + h, net)
+    raise ValueError(kind)
+
+
+SPK_KINDS = ["p2pk", "p2ms", "p2ms-uncompressed", "p2pkh", "p2sh", "p2wpkh", "p2wsh", "p2tr", "nulldata",
+             "witness_unknown"]
+
+
+def _o_spk_addresses_network(w):
+    """every string in ScriptPubKey.addresses / .address reads back on a network sharing the prefix of the
+    network the ScriptPubKey was built with (so a test-network script never renders mainnet addresses)."""
+    kind, net, qs = w["kind"], w["net"], w["qs"]
+    try:
+        s = _build_spk(kind, net, qs)
+        one, many = s.address, s.addresses
+        plain = spkmod.addresses(s.script, net) if kind.startswith("p2ms") else None
+    except Exception as e:  # noqa: BLE001
+        return False, f"{kind} on {net}: {type(e).__name__}: {e}"
+    if s.network != net:
+        return False, f"{kind}: built for {net}, carries {s.network}"
+    want_n = len(qs) if kind.startswith("p2ms") else 1
+    if len(many) != want_n or (plain is not None and many != plain):
+        return False, f"{kind} on {net}: addresses {many} (module-level function says {plain})"
+    if kind in ("p2pk", "nulldata") or kind.startswith("p2ms"):
+        if one != "":
+            return False, f"{kind} has address {one!r}"
+    elif one == "" or many != [one]:
+        return False, f"{kind} on {net}: address {one!r}, addresses {many}"
+    for a in [x for x in [one, *many] if x != ""]:
+        ok, note = _reads_back_on(a, net)
+        if not ok:
+            return False, f"{kind} built on {net}: {note}"
+    return True, f"{kind} {net} {many}"
+
+
+def _o_prepared_point(w):
+    """address builders answer the same string for a PreparedPoint as for the plain point."""
+    from btclib.curves import mult
+    from btclib.curves.curve import PreparedPoint
+    from btclib.to_pub_key import pub_keyinfo_from_key
+    net, compr = w["net"], w["compr"]
+    pt = mult(w["q"])
+    pp = PreparedPoint(pt)
+    try:
+        pairs = [
+            ("pub_keyinfo_from_key", pub_keyinfo_from_key(pp, net, compr), pub_keyinfo_from_key(pt, net, compr)),
+            ("b58.p2pkh", b58.p2pkh(pp, net, compr), b58.p2pkh(pt, net, compr)),
+            ("b58.p2wpkh_p2sh", b58.p2wpkh_p2sh(pp, net), b58.p2wpkh_p2sh(pt, net)),
+            ("b32.p2wpkh", b32.p2wpkh(pp, net), b32.p2wpkh(pt, net)),
+            ("ScriptPubKey.p2pkh", ScriptPubKey.p2pkh(pp, net, compr), ScriptPubKey.p2pkh(pt, net, compr)),
+        ]
+    except Exception as e:  # noqa: BLE001
+        return False, f"{type(e).__name__}: {e}"
+    for name, a, b in pairs:
+        if a != b:
+            return False, f"{name}(PreparedPoint, {net}, {compr}) = {a!r} but plain point gives {b!r}"
+    for name, a, _ in pairs[1:4]:
+        ok, note = _reads_back_on(a, net)
+        if not ok:
+            return False, f"{name}: {note}"
+    return True, f"{net} {compr}"
+
+
 def _o_hrp_range(w):
     """decode(encode(x)) == x for a human-readable part BIP173 allows (33..126)."""
     hrp, data, m = w["hrp"], w["data"], w["m"]
@@ -380,6 +481,7 @@ ORACLES = {
     "regroup.roundtrip": _o_regroup_roundtrip, "regroup.canonical": _o_regroup_canonical,
     "b58.roundtrip": _o_b58_roundtrip, "b58.canonical": _o_b58_canonical, "b58.corrupt": _o_b58_corrupt,
     "spk.inverse": _o_spk_inverse, "addr.inverse": _o_addr_inverse, "net.separation": _o_net_separation,
+    "spk.addresses_network": _o_spk_addresses_network, "key.prepared_point": _o_prepared_point,
     "wif.roundtrip": _o_wif, "xkey.roundtrip": _o_xkey, "bech32.hrp_range": _o_hrp_range,
 }
 
@@ -705,6 +807,17 @@ def run(ctx):  # noqa: PLR0912, PLR0915
             lines.append(f"spk.from {T(bad)}") if kind in ("case", "swap", "trunc", "space", "nbsp") else None
             ctx.check("b58.corrupt", {"good": a, "bad": bad}, nontrivial=False)
     ctx.stream("b58.mutations", lines)
+
+    # ---- ScriptPubKey.address(es) stay on their network; PreparedPoint keys (real code only) -----------------
+    n_ord = 0xFFFFFFFFFFFFFFFFFFFFFFFFFFFFFFFEBAAEDCE6AF48A03BBFD25E8CD0364141
+    for net in NETS:
+        for kind in SPK_KINDS:
+            for _ in range(ctx.n(1, 4)):
+                nk = rng.choice([1, 2, 3]) if kind.startswith("p2ms") else 1
+                ctx.check("spk.addresses_network", {"kind": kind, "net": net,
+                                                    "qs": [rng.randrange(1, n_ord) for _ in range(nk)]})
+        for compr in (True, False, None):
+            ctx.check("key.prepared_point", {"net": net, "compr": compr, "q": rng.randrange(1, n_ord)})
 
     # ---- WIF and extended keys (real code only) -------------------------------------------------------
     n_order = 0xFFFFFFFFFFFFFFFFFFFFFFFFFFFFFFFEBAAEDCE6AF48A03BBFD25E8CD0364141
